@@ -12,11 +12,12 @@
            s<l>.<i>.<j> swap   n<l> len   k<l> clone   d<l> drop   e<a>.<b> ==
            x<l>.<v> index   y<l> is_empty   t<l> to_vec
    sched : thread ids as digits
-   obs   : `<steps>;<end>;<results>;<lists>`
+   obs   : `<steps>;<end>;<results>;<lists>;<spans>`
            steps   `,`-separated `<tid><events>~<blocked tids before the step>`,
                    events P obtained, O outside lock, U use, S stale use, F use finished, R realloc, D free
            end     `ok` | `dl` (deadlock)
            results threads `/`-separated, results `,`-separated: u | o<v> | o- | b0 | b1 | n<k> | l<e.e.e> | X (stale use)
+           spans   the completed operations in completion order, `<tid>:<first step>-<last step>`
            lists   final contents, `/`-separated (`-` = every handle dropped; nothing after a deadlock)
 -/
 import Driver.Util
@@ -108,7 +109,8 @@ def observe (F : Facts) (lists : List (List Nat)) (progs : List (List Op)) (sche
     let ls := if fin == "ok" then
         "/".intercalate ((List.range lists.length).map fun l =>
           if (s.cells l).rc = 0 then "-" else dots (abs s l)) else ""
-    s!"{",".intercalate steps};{fin};{res};{ls}"
+    let sp := ",".intercalate ((s.hist.zip s.spans).map fun (d, p) => s!"{d.tid}:{p.1}-{p.2}")
+    s!"{",".intercalate steps};{fin};{res};{ls};{sp}"
 
 def handle (args : List String) : String :=
   match args with
